@@ -57,7 +57,40 @@ def cases(tier, seed):
         if variant != "proper":
             sp["block"]["cons"] = [c for c in sp["block"]["cons"] if c.get("factor") != target]
         out.append({"cls": variant, "spec": sp, "variant": variant, "target": target})
+    # appended (round 4): a derived factor over a width-1 derived factor that only exists from a late explicit start,
+    # itself starting earlier (its window sees "no level yet"), kept in the encoding by a crossing or a constraint
+    for i in range(n // 12):
+        rng = random.Random("c15late/%s/%d" % (seed, i))
+        out.append({"cls": "late_start_dep", "spec": gen_late(rng), "variant": "proper", "target": "D1"})
     return out
+
+
+def gen_late(rng):
+    from vlib import spec as S
+    nl0 = rng.choice([2, 3, 4])
+    spec = {"factors": {"F0": {"kind": "basic", "levels": [["a%d" % j, 1] for j in range(nl0)]}}, "order": ["F0"], "block": None}
+    if rng.random() < 0.5:
+        spec["factors"]["F1"] = {"kind": "basic", "levels": [["b0", 1], ["b1", 1]]}
+        spec["order"].append("F1")
+    late = rng.choice([1, 2, 2, 3])
+    for name, deps, start in (("D0", ["F0"], late), ("D1", ["D0"], rng.randrange(0, late))):
+        nl = 2
+        f = {"kind": "derived", "win": ["window", 1, 1, start], "deps": deps,
+             "levels": [[name.lower() + str(j), 1] for j in range(nl)], "table": {}, "else": None}
+        spec["factors"][name] = f
+        spec["order"].append(name)
+        dom = list(S.arg_domain(spec, name))
+        for j, tup in enumerate(rng.sample(dom, len(dom))):
+            f["table"][S.akey(tup)] = j if j < nl else rng.randrange(nl)
+    design = list(spec["order"])
+    rng.shuffle(design)
+    crossing = ["F0"] if rng.random() < 0.6 else ["F0", "D1"]
+    cons = []
+    if "D1" not in crossing or rng.random() < 0.3:
+        cons.append({"type": "AtMostKInARow", "k": 4, "factor": "D1", "level": "d10"})
+    spec["block"] = {"op": "cross", "design": design, "crossings": [crossing], "cons": cons, "rcc": True,
+                     "mode": "weight", "align": "equal", "ctor": "CrossBlock"}
+    return spec
 
 
 def run_case(case):
@@ -118,6 +151,17 @@ def run_case(case):
     judged = 0
     for strat in ("IterateSATGen", "RandomGen"):
         r, err, st = D.run_strategy(spec, strat, 6, 15)
+        if (st == "ok" and not err and r == [] and strat == "IterateSATGen" and case.get("cls") == "late_start_dep"
+                and not (fl.ctor_err or fl.und or fl.und_T or fl.T is None)):
+            # a total, unambiguous derived factor must not empty the solution space: (appended simple class only -
+            # no exclusions, weights or preamble-dependent crossings - so that R's verdict 'a valid sequence exists'
+            # carries no known finding)
+            rv = ref.enumerate_valid(spec, fl, cap=1, node_cap=60000)
+            counters["empty_results_checked_against_R"] = counters.get("empty_results_checked_against_R", 0) + 1
+            if rv:
+                viol.append({"kind": "total_factor_no_sequences", "strategy": strat,
+                             "msg": "%s returned no sequence for a design whose derived factors are total and unambiguous; "
+                                    "a valid sequence: %s" % (strat, json.dumps(rv[0])[:300])})
         if st != "ok" or err or not r:
             continue
         for s in r:
